@@ -33,13 +33,18 @@ typedef struct {
 } verif_shared_t;
 
 static verif_shared_t verif_shared;
+/* input variants: the SAME objects at the SAME addresses filled with different values (variant 0 is the default);
+ * used by the call-pair history search: op_i on variant a, then op_j on variant b must equal op_j on variant b alone */
+static int verif_variant = 0;
+static verif_shared_t verif_saved[2];
 
 #define VB_PUT(p, n) do { if (*olen + (size_t)(n) <= cap) { memcpy(out + *olen, (p), (n)); } *olen += (size_t)(n); } while (0)
 #define VB_INT(v) do { unsigned char b4_[4]; int v_ = (int)(v); b4_[0] = (unsigned char)(v_ >> 24); b4_[1] = (unsigned char)(v_ >> 16); b4_[2] = (unsigned char)(v_ >> 8); b4_[3] = (unsigned char)v_; VB_PUT(b4_, 4); } while (0)
 
 static void verif_fill(unsigned char *p, size_t n, unsigned char seed) {
     size_t i;
-    for (i = 0; i < n; i++) p[i] = (unsigned char)(seed * 31 + i * 7 + 1);
+    unsigned int sd = (unsigned int)seed + 97u * (unsigned int)verif_variant;
+    for (i = 0; i < n; i++) p[i] = (unsigned char)(sd * 31 + i * 7 + 1);
 }
 
 /* Prepare the shared inputs with context ctx (must be a full context). Returns 1 on success. */
@@ -121,6 +126,18 @@ VX int verif_shared_init(const secp256k1_context *ctx) {
       ok &= g != NULL; if (g) { ok &= secp256k1_bppp_generators_serialize(ctx, g, s->gens_ser, &l); secp256k1_bppp_generators_destroy(ctx, g); } }
     s->ready = ok;
     return ok;
+}
+
+/* prepare both variants once; leaves variant 0 active */
+VX int verif_shared_prepare(const secp256k1_context *ctx) {
+    int ok = 1;
+    verif_variant = 1; ok &= verif_shared_init(ctx); memcpy(&verif_saved[1], &verif_shared, sizeof(verif_shared));
+    verif_variant = 0; ok &= verif_shared_init(ctx); memcpy(&verif_saved[0], &verif_shared, sizeof(verif_shared));
+    return ok;
+}
+VX void verif_shared_use(int v) {
+    memcpy(&verif_shared, &verif_saved[v & 1], sizeof(verif_shared));
+    verif_variant = v & 1;
 }
 
 #define VERIF_N_OPS 40
